@@ -360,7 +360,7 @@ class Judge:
     def size(self, bound, v, where: str, node: str, fact: str, text):
         """`text` is a string or an AST node (formatted only when needed)"""
         self.counts['cmp_size'] += 1
-        if not isinstance(text, str) and (isinstance(bound, (ListSize, TupleSize))):
+        if not isinstance(text, (str, _Lazy)):
             text = _Lazy(text)
         if isinstance(bound, ListSize):
             if not isinstance(v, list):
